@@ -340,6 +340,58 @@ func jsonHandlerLocks() int {
 	return n
 }
 
+
+// pushConnCalls lists, in source order, what PushMetrics does with the connection it dials:
+// the dial itself, every method called on the connection, and every function the connection is
+// handed to.  A write to a peer that has stopped reading returns only if a deadline was set on
+// the connection before it.
+func pushConnCalls() []string {
+	f := parse("internal/exporter/export.go")
+	if f == nil {
+		shapeErr("ExportLocks", "export.go not found")
+		return nil
+	}
+	fd := f.funcDecl("Exporter", "PushMetrics")
+	if fd == nil || fd.Body == nil {
+		shapeErr("ExportLocks", "PushMetrics not found")
+		return nil
+	}
+	conn := ""
+	var out []string
+	ast.Inspect(fd.Body, func(n ast.Node) bool {
+		if as, ok := n.(*ast.AssignStmt); ok && len(as.Rhs) == 1 && len(as.Lhs) >= 1 {
+			if ce, ok := as.Rhs[0].(*ast.CallExpr); ok {
+				if se, ok := ce.Fun.(*ast.SelectorExpr); ok && strings.HasPrefix(se.Sel.Name, "Dial") {
+					if id, ok := as.Lhs[0].(*ast.Ident); ok {
+						conn = id.Name
+					}
+					out = append(out, se.Sel.Name)
+				}
+			}
+		}
+		ce, ok := n.(*ast.CallExpr)
+		if !ok || conn == "" {
+			return true
+		}
+		if se, ok := ce.Fun.(*ast.SelectorExpr); ok {
+			if id, ok := se.X.(*ast.Ident); ok && id.Name == conn {
+				out = append(out, se.Sel.Name)
+			}
+		}
+		for _, a := range ce.Args {
+			if id, ok := a.(*ast.Ident); ok && id.Name == conn {
+				name := f.src(ce.Fun)
+				if i := strings.LastIndex(name, "."); i >= 0 {
+					name = name[i+1:]
+				}
+				out = append(out, name)
+			}
+		}
+		return true
+	})
+	return out
+}
+
 func init() {
 	register("ExportLocks", func() {
 		targets := []struct{ file, fn, name string }{
@@ -433,6 +485,11 @@ func init() {
 		fmt.Fprintf(&b, "/-- methods of *Metric that take the metric's own lock -/\ndef lockingMethods : List String := [%s]\n", strings.Join(lm, ", "))
 		fmt.Fprintf(&b, "/-- statements of (*Store).MarshalJSON, which the JSON export runs -/\ndef marshalJSON : List JTok := %s\n", lst(jsonShape()))
 		fmt.Fprintf(&b, "/-- lock operations written in exporter/json.go itself -/\ndef jsonHandlerLockOps : Int := %d\n", jsonHandlerLocks())
+		var pc []string
+		for _, c := range pushConnCalls() {
+			pc = append(pc, leanStr(c))
+		}
+		fmt.Fprintf(&b, "/-- what PushMetrics does with the connection it dials, in source order -/\ndef pushConnCalls : List String := [%s]\n", strings.Join(pc, ", "))
 		b.WriteString("end MtailVerif.Generated.ExportLocks\n")
 		write("ExportLocks", b.String())
 	})
